@@ -103,7 +103,7 @@ func validCorpus() []VFrame {
 				}
 				return false
 			}, func(v gen.Vec, nd int) bool {
-				p := s.Make(v)
+				p := gen.WireView(s.Make(v))
 				if (t == 8 || t == 10) && len(p.Filters) == 0 {
 					p.Filters = []spec.Filter{{Topic: []byte("f"), Opts: 0}}
 				}
